@@ -306,7 +306,7 @@ func init() {
 		Name: "C13",
 		Gen: func(g *G) {
 			seed := c13genSeed()
-			c13pairs(g, seed, g.Scale(3, 4), g.Scale(600, 8000), func(left, right []string) {
+			c13pairs(g, seed, g.Scale(3, 4), g.Scale(1500, 8000), func(left, right []string) {
 				ops := c13case(left, right)
 				for n := 0; n <= 4; n++ {
 					ops = append(ops, "pipe "+strconv.Itoa(n))
